@@ -1141,3 +1141,42 @@ def package_phase_functions(ctx):
             if nme in c.methods and c.methods[nme] not in funcs:
                 funcs.append(c.methods[nme])
     return funcs
+
+
+# ---------------------------------------------------------------------- PKW who may write a schema's primary key
+_PK_WRITERS = {
+    'dataflows.processors.set_primary_key': 'the step whose purpose it is',
+    'dataflows.processors.concatenate': 'builds the key of its own target from the keys of the sources',
+}
+
+
+def pk_writers(ctx, rule='PKW'):
+    """The primary key of a resource schema names fields of that schema, as a list or - equally valid - as one string.  Only the steps
+    whose documented purpose it is write it; a step that "tidies" it on the side (after deleting or selecting fields, say) has to get
+    both forms and every later reader right, and the field-level steps are specified to change `fields` and the rows, nothing else."""
+    run, repo = ctx.run, ctx.repo
+    run.rule(rule, 'WHO-MAY-WRITE(primaryKey): a store into / deletion of the key `primaryKey` of a schema occurs only in %s'
+             % ', '.join(sorted(m.rsplit('.', 1)[-1] for m in _PK_WRITERS)))
+    n = 0
+    for m in sorted(repo.modules.values(), key=lambda m: m.name):
+        if not m.name.startswith('dataflows.'):
+            continue
+        for nd in ast.walk(m.tree):
+            tg = []
+            if isinstance(nd, ast.Assign):
+                tg = nd.targets
+            elif isinstance(nd, (ast.AugAssign, ast.AnnAssign)):
+                tg = [nd.target]
+            elif isinstance(nd, ast.Delete):
+                tg = nd.targets
+            hit = [t for t in tg if isinstance(t, ast.Subscript) and _const(t.slice) == 'primaryKey']
+            if isinstance(nd, ast.Call) and isinstance(nd.func, ast.Attribute) and nd.func.attr in ('pop', 'setdefault', 'update') and \
+                    ((nd.args and _const(nd.args[0]) == 'primaryKey') or any(k.arg == 'primaryKey' for k in nd.keywords)):
+                hit = [nd]
+            for t in hit:
+                n += 1
+                run.check(m.name in _PK_WRITERS, rule, where(repo, nd), fq(repo, nd), nd,
+                          'the primary key of a schema is rewritten outside the steps that own it (%s): the key may be given as one '
+                          'string as well as a list, and every reader of the schema relies on it naming existing fields' % m.name)
+    run.floor(rule, n, 2, 'stores into primaryKey')
+    return n
